@@ -1,6 +1,6 @@
 --------------------------- MODULE MC_PoolTracker ---------------------------
 EXTENDS PoolTracker
 View == <<hd, pools, vpk, vp, tasks, initTask, arrived, expired, quiet, ev>>
-MinH == CHOOSE h \in Heights : \A k \in Heights : h <= k
+MinH == CHOOSE h \in Up : \A k \in Up : h <= k
 XH == [h \in Heights |-> IF h = MinH THEN {h, CHOOSE k \in Heights : k # h} ELSE {h}]   \* one cross-height hash
 =============================================================================
